@@ -12,6 +12,7 @@ package gobwas
 //@ property C17
 //@ requires codec != nil
 //@ ensures [one-frame-per-message] err == nil ==> gwframes == old(gwframes) + 1
+//@ ensures [each-message-is-its-own] {C17} err == nil ==> result != nil && !old(allocated(ref(result)))
 //@ ensures [nothing-read-without-a-frame] gwframes == old(gwframes) ==> err != nil
 
 //@ func (*wsCodec).WriteMessage
